@@ -105,6 +105,7 @@ STRUCT = dict(
     implicit_types=dict(implicit=True, vec="sparse", numeric=True),
     implicit_fd=dict(implicit=True, numeric=True, herm=True, fd_last=True),
     zero_diagonal=dict(zero_h0=True),
+    atol_gap=dict(gap=True, numeric=True, kw=dict(atol=2.0 ** -18), min_blocks=2),   # user atol > a cross-block gap
     legacy_three_blocks=dict(legacy=3, herm=True),       # lazily: wrapper only defined for two blocks
 )
 # accepted inputs that exercise further branches (some with a warning the oracle insists on)
@@ -114,6 +115,8 @@ NOTES = dict(
     h0_block_nondiagonal=dict(nondiag=True),                     # UserWarning "Cannot confirm ... diagonal"
     implicit_ok=dict(implicit=True, numeric=True, herm=True,     # DeprecationWarning for atol / eps
                      kw=dict(solver_options=dict(atol=1e-10, eps=0.05))),
+    tiny_scale=dict(scale=True, numeric=True),                   # H * 2**-k: all levels below numpy's default atol
+    near_gap_default_atol=dict(gap=True, numeric=True, min_blocks=2),   # the same gap with the default atol: fine
     single_block_nodesignation=dict(single=True),                # neither indices nor eigenvectors: one block
     fd_bare_array_single=dict(single=True, fd_array=True),       # bare mask array with a single block
     legacy_ok=dict(legacy=2, herm=True),                         # one-argument solver, two blocks: deprecated
@@ -175,6 +178,22 @@ def make_struct_vcase(rng, name, fmt):
     if spec.get("zero_h0"):
         c["H"][zkey(c)] = gq.enc(gq.zeros(len(c["sub"])))
         c["fully"] = None
+    if spec.get("scale"):
+        sc = Fr(1, 2 ** rng.randint(27, 34))
+        c["H"] = {k: gq.enc(gq.scal(sc, gq.dec(M))) for k, M in c["H"].items()}
+    if spec.get("gap"):
+        # two states of different blocks 2**-20 apart, at a level (2**-10) where numpy's relative
+        # tolerance does not reach: shared iff the user's atol exceeds the gap; coupled at first order
+        p_, q_ = sorted(rng.sample(range(nb), 2))
+        a, b = rng.choice(bl[p_]), rng.choice(bl[q_])
+        set_entry(c, zkey(c), a, a, G(Fr(1, 2 ** 10)))
+        set_entry(c, zkey(c), b, b, G(Fr(1, 2 ** 10) + Fr(1, 2 ** 20)))
+        k1 = gen.key(orders_of_total(c["nparam"], 1)[0])
+        set_entry(c, k1, a, b, G(1), herm=c["hermitian"])
+        if not c["hermitian"]:
+            set_entry(c, k1, b, a, G(1), herm=False)
+        c["fully"] = None
+        v["gap_pair"] = [p_, q_]
     if spec.get("single"):
         v["designation"] = "none"
         c["fully"] = None
@@ -718,10 +737,15 @@ def abstract(v):
         dz[-1] = False      # the implicit block is a LinearOperator, never the sentinel zero
         shares = None
     diag_zero = "(fun i => match i with %s | _ => false end)" % " ".join("| %d => %s" % (i, cb(z)) for i, z in enumerate(dz))
+    # the solver's shared-eigenvalue test: == for sympy right-hand sides, else
+    # |a - b| <= atol + 1e-5 |b| with the atol of the call (default 1e-12)
+    from .k_sylvdiag import isclose_exact
+    atol_call = (v.get("kw") or {}).get("atol", 1e-12)
+    same = (lambda x, y: x == y) if c["fmt"] == "sympy" else (lambda x, y: isclose_exact(x, y, atol_call))
     shares = {}
     for i in range(nb - (1 if implicit else 0)):
         for j in range(nb - (1 if implicit else 0)):
-            if i != j and any(E[a] == E[b] for a in bl[i] for b in bl[j]):
+            if i != j and any(same(E[a], E[b]) for a in bl[i] for b in bl[j]):
                 shares[(i, j)] = "true"
     # Taylor coefficients (expression format): Hermitian or not
     bad_terms = []
@@ -755,6 +779,12 @@ def abstract(v):
                     sched[n].append("UsePair %d %d" % (d["p"], d["q"]))
                     if not herm:
                         sched[n].append("UsePair %d %d" % (d["q"], d["p"]))
+    if v.get("gap_pair"):
+        p_, q_ = v["gap_pair"]
+        for n in (1, 2):
+            sched[n].append("UsePair %d %d" % (p_, q_))
+            if not herm:
+                sched[n].append("UsePair %d %d" % (q_, p_))
     if v["solver"] == "one" and any(d["kind"] == "legacy_three_blocks" for d in v["damages"]):
         for n in (1, 2):
             sched[n].append("UsePair 0 2")
